@@ -42,6 +42,17 @@ def scenario(kind, seed, n_agents, steps, tsize, interleave=False):
                 env.move(a, self.model.random.randint(-2, 2), self.model.random.randint(-2, 2))
                 p = a[E.PositionComponent]
                 traj.append((a.id, p.x, p.y))
+                if kind == 'grid':
+                    # a model that works on the answers it was given in place (shuffle, pop): they are its own lists
+                    for mode in ('moore', 'neumann'):
+                        cells = env.get_neighbours(p, 1, True, tuple, mode)
+                        self.model.random.shuffle(cells)
+                        traj.append((mode, [list(c) for c in cells[:3]], len(cells)))
+                        cells.pop()
+                here = env.get_agents_at(p.x, p.y, 0, 1)
+                self.model.random.shuffle(here)
+                traj.append(('near', [x.id for x in here]))
+                here.clear()
     m.systems.add_system(Mover('mover', m))
     for i in range(n_agents):
         a = Agent(f'agent{i}', m, tag=i % 2)
